@@ -18,7 +18,8 @@ Stages == {"frame", "batch", "string", "bytes", "bincode_struct", "bincode_vec",
 Mutations == {"valid", "empty", "truncate_1", "truncate_half", "truncate_last", "flip_first", "flip_mid",
               "flip_last", "garbage_small", "garbage_big", "append_junk",
               "len_2p32", "len_2p40", "len_2p61", "len_max",          \* first length field replaced
-              "count_huge", "count_plus_one", "elem_len_over", "elem_len_max", "short_header"}
+              "count_huge", "count_plus_one", "elem_len_over", "elem_len_max", "short_header",
+              "declared_size_huge"}     \* a well-formed compressed frame whose header announces a huge content size
 Sizes == {"tiny", "small", "medium"}
 
 \* which mutations make sense for which stage
@@ -27,6 +28,7 @@ Applies(st, mu) ==
             st \in {"batch", "sub_batch", "sub_gzip_batch", "sub_zstd_batch", "sub_brotli_batch"}
       [] mu \in {"len_2p32", "len_2p40", "len_2p61", "len_max"} ->
             st \in {"frame", "batch", "bincode_struct", "bincode_vec", "bincode_string", "sub_batch"}
+      [] mu = "declared_size_huge" -> st \in {"zstd", "sub_zstd_batch"}
       [] OTHER -> TRUE
 
 Cases == {[stage |-> st, mut |-> mu, size |-> sz] : st \in Stages, mu \in Mutations, sz \in Sizes}
